@@ -22,7 +22,8 @@ func TestVerifC08Args(t *testing.T) {
 	defer rep.Write()
 	dir := t.TempDir()
 	rng := verifkit.Stream("c08args")
-	pats := []string{"Suite A/**", "**/name with space", "S/*/x", "S/HTTPVersion:1/**/y", "plain", "a/b/c", "**", "*/q"}
+	// (one pattern is far longer than any fixed line buffer: 70 KB)
+	pats := []string{"Suite A/**", "**/name with space", "S/*/x", "S/HTTPVersion:1/**/y", "plain", "a/b/c", "**", "*/q", "Long/" + strings.Repeat("x", 70000) + "/**"}
 	fileNo := 0
 	check := func(list []string, assign []int) {
 		// assign[i]: 0 literal, 1.. file index; order of first appearance defines arg order
